@@ -110,6 +110,10 @@ def membership_guard(ctx, f, step):
                         and live_of(b[2][1]):
                     return 'symbol equals the first live letter of the same vertex'
         return None
+    def derived_from_graph(s_):
+        """the symbol is computed from a row of the accessor (in a form not recognised as its live letters): its relation to the
+        live letters is unknown, not absent"""
+        return any(K.kind(x, f) in ('ACC', 'ROW', 'ENTRY') for x in walk_term(s_) if x[0] in ('sub', 'v'))
     # (2) sym drawn by iteration from the live letters, or from a filtered sub-collection of them
     if sym[0] == 'iter' and letters_of(strip_wrappers(sym[1])):
         return 'symbol iterates over the live letters of the same vertex'
@@ -178,7 +182,7 @@ def membership_guard(ctx, f, step):
                 opaque = any(x[0] == 'call' and (x[1][0] == 'v' or (x[1][0] == 'g' and (x[1][1].startswith('?.') or
                                                                                ctx.p.resolve_func(x[1][1]) is not None)))
                              for x in walk_term(sym))
-                return 'UNCLASSIFIED' if (mentions or opaque) else None
+                return 'UNCLASSIFIED' if (mentions or opaque or derived_from_graph(sym)) else None
             hows.add(how)
         if total:
             return 'on all %d paths to the step: %s' % (total, '; '.join(sorted(hows)))
@@ -192,6 +196,8 @@ def membership_guard(ctx, f, step):
     for x in walk_term(sym):
         if x[0] == 'call' and (x[1][0] == 'v' or (x[1][0] == 'g' and (x[1][1].startswith('?.') or ctx.p.resolve_func(x[1][1]) is not None))):
             return 'UNCLASSIFIED'
+    if derived_from_graph(sym):
+        return 'UNCLASSIFIED'
     return None
 
 
@@ -665,7 +671,12 @@ def _row_signature(name, mode, loop, sums, f, ctx):
         elif name == 'encode':
             sigs.add(('step', s['steps'], 'bits', s['inc'].get(cursor, 0) if cursor else None))
         elif mode == 'normal':
+            # one saved digit record per step: a (radix, digit) tuple, or one item on each of two parallel lists
             nsave = sum(len(v) for v in s['appends'].values() if v and all(len(a) == 1 and a[0][0] == 'tuple' for a in v))
+            if not nsave:
+                plain = [len(v) for v in s['appends'].values() if v and all(len(a) == 1 and a[0][0] != 'tuple' for a in v)]
+                if len(plain) == 2 and plain[0] == plain[1]:
+                    nsave = plain[0]
             sigs.add(('step', s['steps'], 'save', nsave))
         else:
             cur = decoder_cursor(s)
@@ -1013,6 +1024,29 @@ def base_encode(ctx, f, loop, s, d, deg, state, acc, form):
         if is_call(b, 'builtins.len') and len(b[2]) == 1:
             ls = K.live_set(b[2][0], f)
             ok_base = ls is not None and ls[1] == state and ls[0] == acc
+    if not ok_base:
+        # a clear deviation: a constant radix, the length of something that is not a live set of this vertex, no str();
+        # anything else (an expression of the out-degree this rule does not normalise) is not decided here
+        b0 = base
+        if b0 is not None and is_call(b0, 'builtins.str') and len(b0[2]) == 1:
+            b0 = strip_int(b0[2][0])
+        clear = base is None or b0[0] == 'c' or (is_call(b0, 'builtins.len') and len(b0[2]) == 1 and
+                                                 (K.live_set(b0[2][0], f) is not None or K.kind(b0[2][0], f) is not None))
+        if not clear and any(K.out_degree_row(x, f) is not None or K.live_set(x, f) is not None for x in walk_term(b0)):
+            # an arithmetic expression of the out-degree: evaluated at this abstract out-degree
+            def env(x):
+                if is_call(x, 'builtins.len') and len(x[2]) == 1:
+                    ls_ = K.live_set(x[2][0], f)
+                    if ls_ is not None and ls_[1] == state and ls_[0] == acc:
+                        return deg
+                return UNKNOWN
+            v_ = feval(b0, env)
+            if v_ is not UNKNOWN and isinstance(v_, int) and v_ != deg:
+                return ('dev', 'radix of the division is %s, which is %d at out-degree %d' % (show(base)[:60], v_, deg))
+            if v_ is not UNKNOWN and v_ == deg:
+                ok_base = True
+            else:
+                return ('opaque', 'radix ' + show(base)[:60])
     if not ok_base:
         return ('dev', 'radix of the division is %s, not the out-degree str(len(LIVE))' % (show(base) if base else None))
     # the variant: number must be a loop-carried name reassigned from component 0 of the same call
@@ -1638,7 +1672,7 @@ def r_msg(ctx):
                     call_name(a[2][0]).endswith('.number_to_bit'):
                 nb = a[2][0]
                 kinds.append(('normal', call_arg(nb, 1, 'bit_length') == bl and call_arg(nb, 0, 'decimal_number') is not None
-                              and call_arg(nb, 0, 'decimal_number')[0] == 'v'))
+                              and call_arg(nb, 0, 'decimal_number')[0] != 'c'))
             elif is_call(a, 'numpy.zeros'):
                 sh = call_arg(a, 0, 'shape')
                 kinds.append(('fast', sh == ('tuple', bl) or sh == bl))
